@@ -1294,12 +1294,15 @@ def pump_race(w, until, chunk, chooser, on_step, t_horizon, timer_dev=True):
                 if e.conn not in seen:
                     seen.add(e.conn)
                     firsts.append(e)
-            opts = firsts + (['TIMER'] if (nt is not None and timer_dev) else [])
-            pick = 0
+            # only the first connection to each peer takes part in the race; connections opened later (the
+            # downloader re-dialling a peer) are served in canonical order - this keeps the space finite
+            racing = [e for e in firsts if e.conn <= 2]
+            opts = racing + (['TIMER'] if (nt is not None and timer_dev) else [])
             if len(opts) > 1 and chooser is not None:
-                costs = tuple([0] * len(firsts) + ([1] if len(opts) > len(firsts) else []))
-                pick = chooser.choose(len(opts), costs, '|'.join(o if o == 'TIMER' else o.label for o in opts))
-            ev = opts[pick]
+                costs = tuple([0] * len(racing) + ([1] if len(opts) > len(racing) else []))
+                ev = opts[chooser.choose(len(opts), costs, '|'.join(o if o == 'TIMER' else o.label for o in opts))]
+            else:
+                ev = firsts[0]
             if ev == 'TIMER':
                 loop.fire_timer()
                 obs.timer_devs += 1
@@ -1318,7 +1321,7 @@ def pump_race(w, until, chunk, chooser, on_step, t_horizon, timer_dev=True):
         obs.log.append(f'{ev.label}:{got}' if ev.kind == 'SEG' else ev.label)
         obs.transitions += 1
         n += 1
-        if n > 100000:
+        if n > 3000 or len(loop.tcp_conns) > 60:     # a peer re-dialled without end at one virtual instant
             return 'steps'
 
 
@@ -1432,9 +1435,12 @@ def exec_race(base, case, chooser=None):
             if honest_timed_out:
                 obs.tallies.append('race_honest_transfer_hit_its_own_timeout')
             elif entry['relies_on_length'] and not case['known']:
-                # the liar's announced length sticks to the shared blob object and the honest header is then
-                # refused ("unexpected length") - reported, not judged (outside the statement's catalogue of effects)
-                obs.tallies.append('interpretation_only:honest_peer_refused_after_liar_announced_wrong_length_first')
+                # the liar's announced length sticks to the shared blob object (set_length in data_received) and the
+                # honest header is then refused as "unexpected length": its own, specific signature
+                obs.viol.append(({'kind': 'announced-wrong-length-sticks-to-shared-blob'},
+                                 f"blob of unknown length raced from an honest server and a peer announcing a wrong length "
+                                 f"({case['entry']}): the liar's header arrived first, blob.length stayed {cb.length}, the honest "
+                                 f"peer's header was refused (honest request ended {hrec.get('outcome')}), verified={cb.get_is_verified()}"))
             else:
                 errs = [f"{e['message']} {e['exception']!r}" for e in loop.tcp_errors][:1]
                 obs.viol.append((dict(sig, kind='honest-copy-did-not-complete-beside-liar', honest_outcome=hrec.get('outcome')),
@@ -1497,7 +1503,12 @@ def exec_downloader(base, case, chooser=None):
         data = file_state(w.cd, h)
         obs.log.append(f"download_blob: {'returned' if got is not None else 'did not return'} verified="
                        f"{bool(got and got.get_is_verified())} file={'identical' if data == blob else 'absent/different'}")
-        if got is None or not got.get_is_verified() or data != blob:
+        if (got is None or not got.get_is_verified() or data != blob) and rw.entry['relies_on_length']:
+            obs.viol.append(({'kind': 'announced-wrong-length-sticks-to-shared-blob'},
+                             f"BlobDownloader.download_blob (length unknown, peers: honest server + liar '{case['entry']}') has not "
+                             f"returned after {loop.time():.0f} virtual seconds: the liar's announced length stuck to the blob "
+                             f"(length={rw.cbm.get_blob(h).length}) and every honest header is refused as unexpected length"))
+        elif got is None or not got.get_is_verified() or data != blob:
             obs.viol.append((dict(sig, kind='downloader-did-not-get-blob-beside-liar'),
                              f"BlobDownloader.download_blob with peers {case['queue']} (l = liar '{case['entry']}', h = honest "
                              f"server): {end} at t={loop.time():.1f}, task={'done' if task.done() else 'pending'}, "
@@ -1703,6 +1714,9 @@ def run(ctx):
     items += make_items('B', [c for c in b_cases if c['shape'] != 'big'], bound, 60)
     items += make_items('B', b_big, 0 if quick else 1, 400)
     items += make_items('C', c_cases, bound, 40)
+    d_cases, e_cases = race_cases(quick), downloader_cases(quick)
+    items += make_items('D', d_cases, 1, 8)          # all interleavings (cost 0) x <= 1 timer deviation
+    items += make_items('E', e_cases, 0, 8)          # all interleavings, the downloader's own timers run by default
     # light items first, simplest first, so that the violation kept per signature is the simplest one; the few
     # heavy (2 MiB) items run in a second wave
     weight = lambda it: sum(cost(it[0], c) for c in it[1])   # noqa
@@ -1718,6 +1732,10 @@ def run(ctx):
     res.count('cases_honest', len(a_cases))
     res.count('cases_hostile_server', len(b_cases))
     res.count('cases_hostile_client', len(c_cases))
+    res.count('cases_race', len(d_cases))
+    res.count('cases_downloader', len(e_cases))
+    res.sample({'pairing': 'D', 'case': d_cases[0]})
+    res.sample({'pairing': 'E', 'case': e_cases[-1]})
     limit = 8 if quick else 12
     ctx.meta.update(
         rule=('A (real client <-> real server): every subset of the per-response cut-point alphabet (first byte, both '
@@ -1732,6 +1750,11 @@ def run(ctx):
               f'end -1/0/+1, body middle}} + 1-byte, each with every placement of <= {bound} timer-before-data '
               'deviation(s). C (scripted hostile client <-> real server + second honest client before/after): every '
               f'catalogue entry incl. the request split at every byte offset, with <= {bound} timer deviation(s). '
+              'D (one client-side blob requested concurrently from the real server and from a scripted liar, as '
+              'BlobDownloader races peers): 12 liar entries x length known/unknown x start order, EVERY interleaving of '
+              'the two connections\' client-bound deliveries at the cuts header / half body / rest, each with <= 1 timer '
+              'deviation (liar timeout 5 s < honest 10 s). E: the same two peers behind the real BlobDownloader.download_blob '
+              '(peer queue in both orders), every interleaving of the first connection to each peer. '
               'Non-trivial = every case except the single whole-request/whole-response honest transfer; states = '
               'distinct canonical harness states (case, stream offsets, client parser state, server buffer, clock).'),
         exhaustive=True,
@@ -1751,12 +1774,15 @@ def run(ctx):
             'for wrong lengths when the client takes the length from the header; when the client already knows the '
             'length, or the peer only adds excess/unsolicited bytes around genuine content, the enforced reading is '
             '"verified or on disk only if byte-identical to the genuine blob" (tallied as interpretation_only)',
+            'race pairings D/E: the blob must end verified and byte-identical whatever the liar does and whenever, unless the '
+            'honest connection\'s own timeout was fired by a deviation; only the first connection to each peer is '
+            'interleaved, later re-dials are served in canonical order',
             'request size cap: the stronger reading (server never buffers >= MAX_REQUEST_SIZE bytes and closes at once) '
             'is enforced because the unchanged tree satisfies it',
         ],
         expected_witnesses=['header_split_inside_json', 'header_glued_to_body_bytes', 'header_delivered_alone_then_body',
                             'all_one_byte_schedule', 'timeout_fired_before_slow_data',
-                            'server_timer_fired_before_slow_client_data'],
+                            'server_timer_fired_before_slow_client_data', 'liar_finished_while_honest_transfer_in_flight'],
     )
 
 
